@@ -301,9 +301,11 @@ def check_table(case, ctx):
 def obsfcst_strategy(tier):
     @st.composite
     def s(draw):
-        spec = draw(gen.dataset(max_inputs=2, clim=False, flavor="det", core_max=3, extra_max=1, allow_drop=False, allow_all_missing=False))
+        spec = draw(gen.dataset(max_inputs=3, clim=False, flavor=draw(st.sampled_from(["det", "prob", "prob", "full"])), core_max=3, extra_max=1,
+                                allow_drop=False, allow_all_missing=False, max_members=2))
         return {"spec": spec, "axis": draw(st.sampled_from(["time", "leadtime", "location", "month", "no", "leadtimeday"])),
-                "type": draw(st.sampled_from(["csv", "text"])), "kind": draw(st.sampled_from(["text", "netcdf"]))}
+                "type": draw(st.sampled_from(["csv", "text"])), "kind": draw(st.sampled_from(["text", "netcdf"])),
+                "with_q": draw(st.sampled_from([True, True, False])), "q_rev": draw(st.booleans())}
     return s()
 
 
@@ -318,8 +320,20 @@ def check_obsfcst(case, ctx):
     os.makedirs(d)
     paths, _ = mat.write_files(spec, d, case["kind"])
     axis = case["axis"]
-    r = drive.run(paths + ["-m", "obsfcst", "-x", axis, "-type", case["type"]])
+    qs = []
+    if case.get("with_q"):
+        common = None
+        for dd in spec["inputs"]:
+            s_ = set(dd.get("quantiles") or [])
+            common = s_ if common is None else common & s_
+        qs = sorted(common or [])
+        if case.get("q_rev"):
+            qs = qs[::-1]                 # columns follow the order given
+    qargs = ["-q", ",".join(repr(float(q)) for q in qs)] if qs else []
+    r = drive.run(paths + ["-m", "obsfcst", "-x", axis, "-type", case["type"]] + qargs)
     ctx.evals += 1
+    if len(qs) >= 2 and len(paths) >= 2:
+        ctx.label("obsfcst/quantile-columns>=2x2")
     if r.exc is not None:
         ctx.fail("C12/obsfcst/exc/" + r.exc_key, case, r.tb)
         return
@@ -331,7 +345,7 @@ def check_obsfcst(case, ctx):
     digits = 6 if case["type"] == "csv" else 4
     n_in = len(spec["inputs"])
     nd = len(DESC_NAMES[axis])
-    exp_hdr = ["obs"] + [os.path.basename(p) for p in paths]
+    exp_hdr = ["obs"] + [os.path.basename(p) for p in paths] + ["%s %g%%" % (os.path.basename(p), q * 100) for q in qs for p in paths]
     if header[nd:] != exp_hdr:
         ctx.fail("C12/obsfcst/header", case, "columns %r, expected %r" % (header[nd:], exp_hdr))
         return
@@ -347,6 +361,16 @@ def check_obsfcst(case, ctx):
             g = float(row[nd + col])
             if not cmpx.close(g, e if math.isnan(e) else float("%.*g" % (digits, e)), 1e-9):
                 ctx.fail("C12/obsfcst/values", case, "row %d column %d: %r, mean over the valid pairs %r" % (k, col, g, e))
+        # quantile columns: one per (quantile, input) in the order of the header
+        col = 1 + n_in
+        for q in qs:
+            for i in range(n_in):
+                cs = ds.cases([("q", q), ("obs",)], i, axis, k)
+                e = math.fsum(c[0] for c in cs) / len(cs) if cs else float("nan")
+                g = float(row[nd + col])
+                if not cmpx.printed_ok(g, e, digits):
+                    ctx.fail("C12/obsfcst/quantile-values", case, "row %d column %r: %r, mean of that input's %g quantile over the valid cases %r" % (k, header[nd + col], g, q, e))
+                col += 1
 
 
 def campaigns(tier):
